@@ -1,6 +1,7 @@
 import NitroVerif.Proto
 import NitroVerif.Drv.Str
 import NitroVerif.Drv.Fmt
+import NitroVerif.Drv.FV
 
 /-!
 `nvdriver model`  : one case per line on stdin, the model's answer per line on stdout.
@@ -13,6 +14,7 @@ def modelLine (line : String) : String :=
   match Proto.fields line with
   | "str" :: rest => Drv.Str.model rest
   | "fmt" :: rest => Drv.Fmt.model rest
+  | "fv" :: rest => Drv.FV.model rest
   | _ => "bad-op"
 
 def judgeLine (line : String) : String :=
@@ -21,6 +23,7 @@ def judgeLine (line : String) : String :=
     match Proto.fields c with
     | "str" :: rest => Drv.Str.judge rest ans
     | "fmt" :: rest => Drv.Fmt.judge rest ans
+    | "fv" :: rest => Drv.FV.judge rest ans
     | _ => "bad-op"
   | _ => "bad-op"
 
